@@ -24,6 +24,8 @@ import (
 	"github.com/ipfs/ipfs-cluster/allocator/ascendalloc"
 	"github.com/ipfs/ipfs-cluster/allocator/descendalloc"
 	"github.com/ipfs/ipfs-cluster/api"
+	"github.com/ipfs/ipfs-cluster/informer/disk"
+	"github.com/ipfs/ipfs-cluster/informer/numpin"
 	peer "github.com/libp2p/go-libp2p-core/peer"
 	ma "github.com/multiformats/go-multiaddr"
 
@@ -71,6 +73,8 @@ func (H) Generate(prop, tier string, seed uint64) *simkit.Plan {
 		return genC04(tier, seed)
 	case "C10":
 		return genC10(tier, seed)
+	case "C09":
+		return genC09(tier, seed)
 	}
 	panic("clustersim: no generator for " + prop)
 }
@@ -84,6 +88,8 @@ func (H) Execute(t *testing.T, plan *simkit.Plan, run *simkit.Run) {
 		execC04(plan, run)
 	case "C10":
 		execC10(plan, run)
+	case "C09":
+		execC09(plan, run)
 	default:
 		panic("clustersim: no executor for " + plan.Property)
 	}
@@ -129,6 +135,10 @@ type worldOpts struct {
 	pingMs    int
 	infTTL    time.Duration
 	syncEvery time.Duration
+	// realInformers: use informer/disk and informer/numpin (over the model IPFS) instead of the model informer
+	realInformers bool
+	diskTTL       time.Duration
+	numpinTTL     time.Duration
 }
 
 const informerName = "freespace"
@@ -190,7 +200,25 @@ func newWorld(run *simkit.Run, plan *simkit.Plan, o worldOpts) *world {
 		if o.allocator == "ascend" {
 			alloc = ascendalloc.NewAllocator()
 		}
-		cl, err := ipfscluster.NewCluster(w.ctx, h, nil, cfg, dssync.MutexWrap(ds.NewMapDatastore()), n.cons, nil, n.ipfs, n.tr, n.mon, alloc, []ipfscluster.Informer{n.inf}, simkit.NopTracer{})
+		infs := []ipfscluster.Informer{n.inf}
+		if o.realInformers {
+			dc := &disk.Config{}
+			dc.Default()
+			dc.MetricTTL = o.diskTTL
+			di, err := disk.NewInformer(dc)
+			if err != nil {
+				panic(err)
+			}
+			nc := &numpin.Config{}
+			nc.Default()
+			nc.MetricTTL = o.numpinTTL
+			ni, err := numpin.NewInformer(nc)
+			if err != nil {
+				panic(err)
+			}
+			infs = []ipfscluster.Informer{di, ni}
+		}
+		cl, err := ipfscluster.NewCluster(w.ctx, h, nil, cfg, dssync.MutexWrap(ds.NewMapDatastore()), n.cons, nil, n.ipfs, n.tr, n.mon, alloc, infs, simkit.NopTracer{})
 		if err != nil {
 			panic(err)
 		}
